@@ -23,6 +23,9 @@ def shape_args(i, H):
         (("x", "y", "x", span("k"), span("k"), {"class": "a"}, {"class": "a"}, H.HTMLDependency("d", "1.0"), H.HTMLDependency("d", "1.0")), {}),
         # block-level tags as children do not change the function's own whitespace default
         ((H.tags.p("para"), H.tags.div("d", H.tags.ul(H.tags.li("i")))), {"id": "w"}),
+        # attribute values that mean something to browsers mean nothing to the tag functions
+        (("x",), {"href": "u", "target": "_blank", "type": "module", "async_": True, "defer": True, "loading": "lazy", "role": "button"}),
+        (({"target": "_blank", "rel": None, "type": "text/css", "method": "post"}, "y"), {"for_": "f", "http_equiv": "refresh", "charset": "x"}),
     ]
     return shapes[(i - 1) % len(shapes)]
 
@@ -105,5 +108,6 @@ class C19(Prop):
         direct = H.Tag(c["f"], *args, _add_ws=t.add_ws if isinstance(t.add_ws, bool) else True, **{k: v for k, v in kw.items() if k != "_add_ws"})
         rec["eq"] = bool(isinstance(t, H.Tag) and t == direct and list(t.attrs.items()) == list(direct.attrs.items())
                          and [type(x) for x in t.children] == [type(x) for x in direct.children]
+                         and [type(v) for v in t.attrs.values()] == [type(v) for v in direct.attrs.values()]
                          and t.render()["html"] == direct.render()["html"])
         return rec
